@@ -97,11 +97,16 @@ def mtl_faults(rng, prog, feats, losses, tasks, shared):
         bad = rng.choice(pool)
         for pos in range(len(shared) + 1):
             faults.append((kind, ("shared", pos), dict(base, shared=shared[:pos] + [bad] + shared[pos:])))
+            # the same invalid shared parameter with the OTHER collection left to its default
+            faults.append((kind, ("shared, tasks_params defaulted", pos),
+                           dict(base, tasks=None, shared=shared[:pos] + [bad] + shared[pos:])))
         for ti in range(len(tasks)):
             for pos in range(len(tasks[ti]) + 1):
                 tp = [list(ps) for ps in tasks]
                 tp[ti] = tp[ti][:pos] + [bad] + tp[ti][pos:]
                 faults.append((kind, (ti, pos), dict(base, tasks=tp)))
+                if pos == 0:
+                    faults.append((kind, (ti, "shared_params defaulted"), dict(base, tasks=tp, shared=None)))
     return faults
 
 
